@@ -101,4 +101,50 @@ for depth_t, (tgt, supported) in enumerate(targets(3 if THOROUGH else 2)):
                         got_first = True
                 if supported and not got_first:
                     leg.violation(key, f"supported target {tgt!r} was dropped (varname None):\n{src}")
+
+# ---- target-less items on real suspended frames: varname may only be None or the name of a local that IS the manager (the same
+# object); locals that merely compare EQUAL to it (value-like managers, permissive __eq__), in front of or behind the manager in
+# the frame's locals, never lend it their name (None is always acceptable)
+class ValueCM:
+    def __init__(s, tag): s.tag = tag
+    def __enter__(s): return None
+    def __exit__(s, *a): return None
+    def __eq__(s, o): return isinstance(o, ValueCM) and o.tag == s.tag
+    __hash__ = None
+
+
+class Anything:
+    def __eq__(s, o): return True
+    def __hash__(s): return 0
+
+
+DYN = {
+    "equal-local-before": "def fn(V, A):\n    twin = V('k')\n    with V('k'):\n        yield\n",
+    "equal-local-after": "def fn(V, A):\n    with V('k'):\n        twin = V('k')\n        yield\n",
+    "permissive-eq-local": "def fn(V, A):\n    anything = A()\n    with V('k'):\n        yield\n",
+    "bound-local": "def fn(V, A):\n    m = V('k')\n    with m:\n        yield\n",
+    "bound-local-and-equal-twin-first": "def fn(V, A):\n    twin = V('k')\n    m = V('k')\n    with m:\n        yield\n",
+    "bound-local-and-equal-twin-last": "def fn(V, A):\n    m = V('k')\n    twin = V('k')\n    with m:\n        yield\n",
+    "two-names": "def fn(V, A):\n    m = V('k')\n    n = m\n    with m:\n        yield\n",
+    "two-managers-equal": "def fn(V, A):\n    m1 = V('k')\n    m2 = V('k')\n    with m1, m2:\n        yield\n",
+    "two-managers-equal-reversed": "def fn(V, A):\n    m1 = V('k')\n    m2 = V('k')\n    with m2, m1:\n        yield\n",
+}
+for name, src in DYN.items():
+    ns = {}
+    exec(compile(src, "<c08dyn>", "exec"), ns)
+    gen = ns["fn"](ValueCM, Anything)
+    next(gen)
+    frame = gen.gi_frame
+    leg.case(("dynamic", name), True)
+    try:
+        ctxs = ll.contexts_active_in_frame(frame)
+    except Exception as e:
+        leg.violation(("dynamic", name), f"contexts_active_in_frame raised {e!r} on\n{src}")
+        continue
+    loc = frame.f_locals
+    for c in ctxs:
+        if c.varname is not None and loc.get(c.varname, leg) is not c.obj:
+            leg.violation(("dynamic", name), f"varname {c.varname!r} names a local that is NOT the manager object (obj {c.obj!r}, local "
+                                             f"{loc.get(c.varname)!r}) on\n{src}")
+    gen.close()
 leg.finish(exhaustive=True)
